@@ -230,6 +230,7 @@ class EscapePolicy(InlineOnly):
         self.fork_uncaught = True
         self.snapshot_facts = True
         self.load_raises = ()
+        self.report_pitfalls = False  # (which exceptions can escape is not a question about what a traversal yields)
 
     def may_raise(self, ev: Event, eng: Engine) -> t.List[str]:
         s = eng.cur_state
